@@ -849,6 +849,10 @@ func (x *vc) evalCall(env *cenv, e *cexpr) Val {
 		return Val{T: app("rv_field", v.T, i.T), Typ: v.Typ}
 	case "ifaceof": // ifaceof(v): v.Interface() as a term (the interface value a reflect.Value was made from / would yield)
 		v := x.eval(env, e.args[0])
+		// the interface value of a valid non-Interface Value carries the Value's type (instance of the Interface model)
+		if len(env.bound) == 0 || !mentionsBound(v.T, env.bound) {
+			x.assume("true", implies(and(not(eq(app("rv_kind", v.T), "0")), not(eq(app("rv_kind", v.T), "20"))), eq(app("itag", app("rv_iface", v.T)), app("rv_type", v.T))))
+		}
 		return Val{T: app("rv_iface", v.T), Typ: types.NewInterfaceType(nil, nil)}
 	case "rvof": // rvof(x): reflect.ValueOf(x)
 		v := x.eval(env, e.args[0])
@@ -1123,9 +1127,9 @@ func (x *vc) globalValue(fr *frame, st *state, g *ssa.Global) (Val, bool) {
 		// a type that the initialiser determines
 		if t := x.rtypeOfInit(init, info, 0); t != nil {
 			v := x.freshVal("glob_"+g.Name(), et, st)
-			x.needDecl("(declare-fun rtype_id (Iface) Int)")
-			x.assume("true", and(not(eq(app("itag", v.T), "0")), not(eq(app("ival", v.T), "0")), eq(app("rtype_id", v.T), smtInt(int64(x.srt.typeID(t))))))
+			x.rtypeCanon("true", v.T, smtInt(int64(x.srt.typeID(t))))
 			x.kindFact(t)
+			x.ptrFact(t)
 			cache[g] = &v
 			x.trusted["const: immutable package variable "+g.Pkg.Pkg.Name()+"."+g.Name()+" holds the reflect.Type descriptor of "+t.String()+" built by its initialiser (reflect.TypeOf/Elem/MapOf/SliceOf/PtrTo as documented; no store outside init found by scan)"] = true
 			return v, true
